@@ -71,13 +71,15 @@ const (
 	c10StarSeq
 	c10Bol
 	c10Eol
+	c10TopAlt // a whole pattern "X|Y": branches are atom sequences
 )
 
 type c10Atom struct {
-	src  string
-	kind int
-	c    string     // for Lit/Star/Plus/Opt
-	alts [][]string // for Alt (alternatives) and StarSeq (alts[0] is the repeated sequence)
+	src      string
+	kind     int
+	c        string       // for Lit/Star/Plus/Opt
+	alts     [][]string   // for Alt (alternatives) and StarSeq (alts[0] is the repeated sequence)
+	branches [][]*c10Atom // for TopAlt
 }
 
 var c10Atoms = []c10Atom{
@@ -202,8 +204,31 @@ func (a *c10Atom) step(u []string, p int) uint32 {
 		if p == L {
 			return 1 << uint(p)
 		}
+	case c10TopAlt:
+		var m uint32
+		for _, br := range a.branches {
+			m |= c10SeqEnds(br, u, p)
+		}
+		return m
 	}
 	return 0
+}
+
+// c10SeqEnds: the set of positions at which a match of the atom sequence
+// starting at p can end.
+func c10SeqEnds(atoms []*c10Atom, u []string, p int) uint32 {
+	cur := uint32(1) << uint(p)
+	for _, a := range atoms {
+		var nxt uint32
+		for rest := cur; rest != 0; rest &= rest - 1 {
+			nxt |= a.step(u, bits.TrailingZeros32(rest))
+		}
+		cur = nxt
+		if cur == 0 {
+			break
+		}
+	}
+	return cur
 }
 
 func c10SeqAt(u []string, p int, seq []string) bool {
@@ -835,6 +860,33 @@ func c10FlatUnit(c *core.Ctx, r *c10Runner, cases []c10Flat, modes []bool) {
 // ---------------------------------------------------------------- regex group
 
 func c10ParsePat(pat string) ([]*c10Atom, bool) {
+	// top-level alternation: X|Y (the | inside (a|b) is at depth 1)
+	depth := 0
+	for i := 0; i < len(pat); i++ {
+		switch pat[i] {
+		case '(', '[':
+			depth++
+		case ')', ']':
+			depth--
+		case '|':
+			if depth == 0 {
+				l, ok1 := c10ParsePat(pat[:i])
+				r, ok2 := c10ParsePat(pat[i+1:])
+				if !ok1 || !ok2 {
+					return nil, false
+				}
+				var branches [][]*c10Atom
+				for _, side := range [][]*c10Atom{l, r} {
+					if len(side) == 1 && side[0].kind == c10TopAlt {
+						branches = append(branches, side[0].branches...)
+					} else {
+						branches = append(branches, side)
+					}
+				}
+				return []*c10Atom{{src: pat, kind: c10TopAlt, branches: branches}}, true
+			}
+		}
+	}
 	var atoms []*c10Atom
 	for pat != "" {
 		best := -1
@@ -1081,6 +1133,22 @@ func c10Patterns(maxAtoms int) []string {
 	return out
 }
 
+// c10AltPatterns: X|Y for all sequences X, Y of 1..2 atoms over {a b ^ $ a*}
+// (an anchor that binds only one branch: "^a|b", "a|b$", "^a*|b").
+func c10AltPatterns() []string {
+	var seqs []string
+	for n := 1; n <= 2; n++ {
+		enumStrings([]string{"a", "b", "^", "$", "a*"}, n, func(s string) { seqs = append(seqs, s) })
+	}
+	var out []string
+	for _, x := range seqs {
+		for _, y := range seqs {
+			out = append(out, x+"|"+y)
+		}
+	}
+	return out
+}
+
 func c10Repls(maxTok int) []string {
 	seen := map[string]bool{}
 	var out []string
@@ -1171,7 +1239,7 @@ func c10Run(c *core.Ctx) {
 	}
 
 	// (5) match / sub / gsub: every pattern x every subject x every replacement
-	pats := c10Patterns(3)
+	pats := append(c10Patterns(3), c10AltPatterns()...)
 	repls := c10Repls(3)
 	for _, pat := range pats {
 		if c.Expired() {
@@ -1239,7 +1307,7 @@ func init() {
 		Rule: "bounded-exhaustive enumeration against an executable model: every string of length <=3 (thorough <=4) over {a,b,é,\\xff} x " +
 			"every position x every length from a fixed list of 44 numbers (fractions, negatives, 2^31, 2^53, 2^63-1024, 2^63, 2^64, 1e30, 1e308, +-inf, nan) for substr; " +
 			"78 arguments for int() (75 finite); every subject x every needle of length <=2 for index; every string of length <=4 (5) over {a,é,\\xff,sep} for 14 single-character separators for split; " +
-			"every regex of <=3 atoms from 13 atoms x every subject x every replacement of <=3 tokens over {&,\\&,\\\\,x,\\} for match/sub/gsub (thorough: also subjects of length 5 for regexes of <=2 atoms); all in byte mode and character mode. " +
+			"every regex of <=3 atoms from 13 atoms, and every top-level alternation X|Y of sequences of 1..2 atoms over {a b ^ $ a*} (900 patterns), x every subject x every replacement of <=3 tokens over {&,\\&,\\\\,x,\\} for match/sub/gsub (thorough: also subjects of length 5 for regexes of <=2 atoms); all in byte mode and character mode. " +
 			"A state is one argument tuple (mode, builtin, arguments); a transition is one builtin call on the real interpreter; distinct = distinct observed results",
 		Assumptions: []string{
 			"amd64 float-to-int conversion (out-of-range values become MinInt64); the model never relies on it",
